@@ -150,7 +150,7 @@ Qed.
 Theorem agree_implies_property c :
   wf_case c = true -> known_class c = 0%N -> run_case c = true -> prop_case c = true.
 Proof.
-  destruct c as [tbl uri o rer | tbl r u o' | tbl ps o | r o | r o | a am me la ms ot o | m o | s o | s o | z o];
+  destruct c as [tbl uri o rer | tbl r u o' | tbl ps o | r o | r o | a am me la ms ot o | m o | s o | s o | z o | sh fm ft];
     cbn [wf_case known_class run_case prop_case]; intros W _ R.
   - (* FromUri *)
     apply andb_true_iff in W. destruct W as [T _].
@@ -230,4 +230,5 @@ Proof.
     assert (Hz : 0 <= z <= MAX_MONEY) by lia.
     rewrite <- parse_amount_spec, (amount_roundtrip z Hz), (amount_str_canonical z Hz), andb_true_r.
     cbn. apply Z.eqb_refl.
+  - (* AddrFlags *) exact R.
 Qed.
